@@ -37,7 +37,8 @@ REQUIRED_MONITORS = ["ref-derivative", "mapped-grad", "mapped-div", "mapped-curl
                      "layouts-agree"]
 REQUIRED_REACH = ["complex-step", "central-difference", "negative-det-cell", "per-cell-layout", "subset-tind",
                   "non-affine-cell", "higher-derivative-chain", "unsorted-triangle-cells",
-                  "global-nodal-on-general-quadrilateral", "points-updated-in-place"]
+                  "global-nodal-on-general-quadrilateral", "points-updated-in-place",
+                  "tind-with-repeated-cell"]
 
 FD = ((1, 4 / 5), (2, -1 / 5), (3, 4 / 105), (4, -1 / 280))
 
@@ -258,16 +259,21 @@ def mapped_derivatives(ctx, k):
         allrecs += [r for r in EL.all_for_kind(kind) if not r.skeleton]
     rec = allrecs[k % len(allrecs)]
     rng = ctx.rng()
-    mc, mesh, geom = pick_mesh(ctx, rng, rec, k // len(allrecs) + k)
+    mc, mesh, geom = pick_mesh(ctx, rng, rec, int(rng.integers(0, 6)))
     kind = rec.kind
     d = GEO.REFDIM[kind]
     nt = mesh.t.shape[1]
     ncell = min(nt, 3)
-    tind = rng.choice(nt, size=ncell, replace=False).astype(np.int64 if k % 2 else np.int32)
-    use_tind = None if (k % 4 == 0 and nt <= 12) else tind
+    # options drawn from the rng (derived from k they alias with the record index: some (element, layout) pairs would
+    # never occur in any tier)
+    tind = rng.choice(nt, size=ncell, replace=False).astype(np.int64 if rng.random() < 0.5 else np.int32)
+    if rng.random() < 0.2 and ncell >= 2:
+        tind[-1] = tind[0]                      # a cell listed twice
+        ctx.reached("tind-with-repeated-cell")
+    use_tind = None if (rng.random() < 0.25 and nt <= 12) else tind
     cells = np.arange(nt) if use_tind is None else tind
-    npts = 4
-    percell = bool(k % 2)
+    npts = int(rng.choice([4, 4, 1, len(cells)]))
+    percell = bool(rng.random() < 0.5)
     if rec.name == "ElementTriN3" and percell:
         # ElementTriN3.gbasis implements the shared-point layout only (raises for per-cell points); the layout
         # is workload diversity here, not part of C09's statement
@@ -317,6 +323,13 @@ def mapped_derivatives(ctx, k):
                 ctx.check("field-shape", False, mech=f"field-shape:{rec.name}", elem=rec.name, shape=val.shape,
                           want=(len(cells), npts))
                 continue
+            if rec.family == "h1" and "(" not in rec.name.replace("ElementLinePp(", "") and len(fields) == 1 and val.ndim == 2:
+                # (ElementQuadP signs its odd edge modes along the global edge direction: not a plain pull-back)
+                # the mapped value of an H1 function is its reference value at the same reference point
+                lref = np.asarray(rec.make().lbasis(X, i)[0])
+                lref = lref if percell else np.broadcast_to(lref, val.shape)
+                ctx.close("mapped-value", val, lref, rtol=1e-12, scale=max(1.0, float(np.abs(lref).max())),
+                          mech=f"mapped-value:{rec.name.split('(')[0]}", elem=rec.name, i=i, geom=geom, percell=percell)
             Gx = phys_grad(lambda fs, comp=comp: np.array(fs[comp]), i)
             sc = lambda ref, got: max(float(np.abs(ref).max()), float(np.abs(got).max()), 1e-3 * float(np.abs(val).max()) + 1e-12)
             tag = dict(elem=rec.name, i=i, comp=comp, geom=geom, percell=percell, subset=use_tind is not None,
@@ -394,6 +407,9 @@ def _facet_quadrature(kind, s, rd):
     return X, np.array([0.25] * 4), verts
 
 
+FLUX_NORMALISATION = {"ElementTriRT1": 1.0, "ElementQuadRT1": 1.0, "ElementHexRT1": 1.0, "ElementTetRT1": 0.5}
+
+
 def duality(ctx, k):
     recs = [EL.by_name(n) for n in ("ElementTriRT1", "ElementQuadRT1", "ElementTetRT1", "ElementHexRT1",
                                     "ElementTriN1", "ElementQuadN1", "ElementTetN1")]
@@ -424,6 +440,9 @@ def duality(ctx, k):
                 nref = np.array([tau[1], -tau[0]])
             else:
                 nref = np.cross(Pv[:, 1] - Pv[:, 0], Pv[:, 2] - Pv[:, 0])
+            # outward on the reference cell, whatever order the table lists the facet's vertices in
+            if nref @ (Pv.mean(axis=1) - np.asarray(rd.p, dtype=float).mean(axis=1)) < 0:
+                nref = -nref
             # W sums to the measure of the parameter domain (unit segment, unit triangle, unit square) and
             # nref is the constant reference area vector of that parametrisation
             Wn = W
@@ -435,9 +454,15 @@ def duality(ctx, k):
                 M[:, s, i] = np.einsum("icq,icq,q->c", v, nphys, Wn) * np.sign(detJ[:, 0])
         # dual up to one fixed normalisation constant c per element class (library: 1 in 2-D, 1/2 for
         # ElementTetRT1 whose functional is twice the flux): off-diagonal fluxes vanish, |diagonal| == c
-        c = float(np.abs(M[0, 0, 0]))
-        ok = c > 0.1 and np.allclose(np.abs(M), c * np.eye(nf)[None], atol=1e-9)
-        ctx.notes[f"flux-normalisation:{rec.name}"] = round(c, 12)
+        c = FLUX_NORMALISATION[rec.name]       # pinned: measured once on the library and recorded (TetRT1: twice the flux)
+        ok = np.allclose(np.abs(M), c * np.eye(nf)[None], atol=1e-9)
+        # sign: +1 towards the outside of the first cell of the facet (f2t[0]), -1 seen from the second
+        t2f, f2t = np.asarray(mesh.t2f), np.asarray(mesh.f2t)
+        want = np.array([[1.0 if f2t[0, t2f[s_, cc]] == cc else -1.0 for s_ in range(nf)] for cc in cells])
+        sgn = np.sign(np.einsum("css->cs", M))
+        ctx.check("hdiv-flux-dual", np.array_equal(sgn, want), mech=f"flux-sign:{rec.name}", elem=rec.name, mesh=mc.desc,
+                  got=lambda: sgn.tolist(), want=lambda: want.tolist())
+        ctx.notes[f"flux-normalisation:{rec.name}"] = round(float(np.abs(M[0, 0, 0])), 12)
         ctx.check("hdiv-flux-dual", ok, mech=f"flux-dual:{rec.name}", elem=rec.name, mesh=mc.desc,
                   M=lambda: np.round(M[0], 6))
         ctx.nontrivial(rec.name, "flux-dual", mc.desc.get("style"))
@@ -454,9 +479,16 @@ def duality(ctx, k):
             for i in range(ne):
                 v = np.array(elem.gbasis(mapping, X, i, cells)[0])
                 M[:, s, i] = np.einsum("icq,icq,q->c", v, tau, np.array([0.5, 0.5]))
-        c = float(np.abs(M[0, 0, 0]))
-        ok = c > 0.1 and np.allclose(np.abs(M), c * np.eye(ne)[None], atol=1e-9)
-        ctx.notes[f"circulation-normalisation:{rec.name}"] = round(c, 12)
+        c = 1.0                                 # pinned: unit circulation along the own edge
+        ok = np.allclose(np.abs(M), c * np.eye(ne)[None], atol=1e-9)
+        # sign: along the edge from the smaller to the larger global vertex number
+        # (times the element's own convention, pinned like the flux normalisation: ElementTriN1 circulates clockwise)
+        conv = {"ElementTriN1": -1.0}.get(rec.name, 1.0)
+        want = conv * np.array([[1.0 if t[a_, cc] < t[b_, cc] else -1.0 for (a_, b_) in edges] for cc in cells])
+        sgn = np.sign(np.einsum("css->cs", M))
+        ctx.check("hcurl-circulation-dual", np.array_equal(sgn, want), mech=f"circulation-sign:{rec.name}", elem=rec.name,
+                  mesh=mc.desc, got=lambda: sgn.tolist(), want=lambda: want.tolist())
+        ctx.notes[f"circulation-normalisation:{rec.name}"] = round(float(np.abs(M[0, 0, 0])), 12)
         ctx.check("hcurl-circulation-dual", ok, mech=f"circulation-dual:{rec.name}", elem=rec.name, mesh=mc.desc,
                   M=lambda: np.round(M[0], 6))
         ctx.nontrivial(rec.name, "circulation-dual", mc.desc.get("style"))
@@ -532,7 +564,12 @@ def global_dofs(ctx, k):
     if not supported:
         raise Skip("functional-not-modelled")
     # identity up to the library's sign convention for normal-derivative functionals
-    ok = np.allclose(np.abs(M), np.eye(N)[None], atol=1e-6 * max(1.0, float(np.abs(M).max())))
+    signed = np.array([fn[1] != "u_n" for fn in funcs])
+    Ms = M.copy()
+    Ms[:, ~signed, :] = np.abs(Ms[:, ~signed, :])
+    target = np.eye(N)[None]
+    ok = np.allclose(np.where(signed[None, :, None], Ms, np.abs(M)), np.where(signed[None, :, None], target, np.abs(target)),
+                     atol=1e-6 * max(1.0, float(np.abs(M).max())))
     off = np.abs(M - np.eye(N)[None] * np.sign(np.einsum("cii->ci", M))[:, :, None]).max()
     ctx.check("global-dofs-dual", ok, mech=f"global-dual:{rec.name}", elem=rec.name, mesh=mc.desc, worst=float(off))
     ctx.nontrivial(rec.name, "global-dual", mc.desc.get("style"))
@@ -549,7 +586,7 @@ def _n_nodal(ctx):
 
 def _n_mapped(ctx):
     n = sum(len([r for r in EL.all_for_kind(kd) if not r.skeleton]) for kd in G.KINDS)
-    return n * ctx.scale(1, 24)
+    return n * ctx.scale(2, 24)
 
 
 FAMILIES = [
